@@ -176,6 +176,60 @@ def r1_cell(chk: Check) -> None:
                                   "register_hook_with_name validates the hook and raises (unknown hook name, wrong signature, wrong scope) BEFORE the pending apply_to/skip_for state is reset: the rejected registration's filters are silently inherited by the next hook registered on this dispatcher",
                                   f.loc(c), g.describe_path(w, mod.relpath))
 
+    # (c4) the same for every validator the registration closures call themselves: a repo function that can `raise`
+    #      (validate_filterable_hook rejects filters on before_process_path / *_load_schema) - no complete path
+    #      entry -> call -> exceptional exit may leave the pending apply_to/skip_for state in the cell
+    n_validators = 0
+    from ..astutil import walk_local
+
+    def _raised_by(name: str) -> list[str]:
+        toks: list[str] = []
+        for t in chk.project.find_function_by_name(name):
+            if isinstance(t.node, ast.Lambda) or not t.qualname.startswith("hooks.py:"):
+                continue
+            for n_ in walk_body(t.node):
+                if isinstance(n_, ast.Raise) and n_.exc is not None:
+                    cls_ = n_.exc.func if isinstance(n_.exc, ast.Call) else n_.exc
+                    tok = dotted(cls_).rsplit(".", 1)[-1] if dotted(cls_) else "Exception"
+                    if tok not in toks:
+                        toks.append(tok)
+        return toks
+
+    def _validator_tokens(node: ast.AST) -> list[str]:
+        out: list[str] = []
+        for n_ in walk_local(node):
+            if isinstance(n_, ast.Call) and isinstance(n_.func, ast.Name) and n_.func.id != "init_filter_set":
+                out += [t for t in _raised_by(n_.func.id) if t not in out]
+        return out
+
+    for f in nested:
+        if scope_kind(f, cell) != "cell":
+            continue
+        g = cfg_of(f, "validator-raises", extra_raises=_validator_tokens)
+        rebinds = [nid for s_, v in assignments_to(f.node, cell) if isinstance(v, ast.Call) and isinstance(v.func, ast.Name) and v.func.id == "init_filter_set" for nid in g.nodes_of(s_)]
+        for c in body_calls(f):
+            if not isinstance(c.func, ast.Name) or c.func.id == "init_filter_set":
+                continue
+            toks = _raised_by(c.func.id)
+            if not toks:
+                continue
+            n_validators += 1
+            construct = f"a rejection by {c.func.id}(...) does not leave the pending filter state in `{cell}`"
+            normal = lambda a, b, lbl: not lbl.startswith("exc:")  # noqa: E731
+            here = g.stmt_nodes_containing(c)
+            before = g.path([g.entry], here, avoid=rebinds, edge_ok=normal)
+            exc_succ = [m for n_ in here for m, lbl in g.nodes[n_].succ if lbl in {f"exc:{t}" for t in toks}]
+            after = g.path(exc_succ, g.exits(), avoid=rebinds) if exc_succ else None
+            if not exc_succ:
+                chk.undecided("C19.R1", f, construct, "the validator's exception edge is not in the CFG", f.loc(c))
+            elif before is None or after is None:
+                chk.ok("C19.R1", f, construct, "", f.loc(c))
+            else:
+                chk.violation("C19.R1", f, construct,
+                              f"`{c.func.id}` raises {'/'.join(toks)} (filters are not applicable to this hook) while the cell still holds the rejected registration's apply_to/skip_for state and nothing resets it on the way out: the NEXT hook registered on this dispatcher - even an unfiltered one - silently inherits these filters and is skipped for operations its author never excluded",
+                              f.loc(c), g.describe_path(before + after, mod.relpath))
+    chk.expect(n_validators >= 1, "C19.R1", outer, "validators called by the registration closures", "no raising validator call recognised in register/decorator", outer.loc())
+
     # (d) what `return register` hands out starts with a FilterSet produced by init_filter_set(register)
     outer_assigns = [(s, v) for s, v in assignments_to(outer.node, cell)]
     last = outer_assigns[-1][1] if outer_assigns else None
